@@ -27,6 +27,17 @@ def index_variants(F, kind):
 def _match_on_param(fn, F):
     """The (single) match in `fn` whose scrutinee type is Operator."""
     ms = [m for m in walk(fn["body"]) if m.get("k") == "Match" and OP in m.get("scrut_ty", "")]
+    if len(ms) == 0:
+        # `let (Operator::A { x } | Operator::B { x }) = op else { panic!(..) };  <rest of the body>`: a one-arm match whose
+        # arm body is the rest of the function
+        for blk in walk(fn["body"]):
+            if blk.get("k") != "Block":
+                continue
+            for i_, st in enumerate(blk.get("stmts") or []):
+                if st.get("k") == "Let" and "else" in st and "init" in st and OP in ((st["init"].get("ty") or "") + " " + (peel(st["init"]).get("ty") or "")):
+                    rest = {"k": "Block", "stmts": blk["stmts"][i_ + 1:], "expr": blk.get("expr"), "ty": blk.get("ty"), "sp": st.get("sp")}
+                    return {"k": "Match", "scrut": st["init"], "scrut_ty": OP, "sp": st.get("sp"), "synthetic": True,
+                            "arms": [{"pat": st["pat"], "body": rest}, {"pat": {"k": "Wild"}, "body": st["else"]}]}
     if len(ms) != 1:
         raise CheckError("%s: expected exactly one match on Operator, found %d" % (fn["path"], len(ms)))
     return ms[0]
@@ -167,6 +178,21 @@ def refers_exh(F, kind):
                     if bn in assigned:
                         written.setdefault(leaf["variant"], set()).add(fname)
 
+    if not written and not m2.get("synthetic"):
+        # no arm rewrites anything in place: the arms only select the operand slot(s) (`[Some(&mut memarg.memory), None]`)
+        # and the rewrite happens once after the match — which slot an arm selects is not followed
+        hands_out = any(x.get("k") == "AddrOf" and x.get("mut") for arm in m2["arms"] for x in walk(arm["body"])) or \
+            any(x.get("k") in ("Array", "Tup") for arm in m2["arms"] for x in walk(arm["body"]))
+        later_write = any(x.get("k") == "Assign" and not any(x is y for arm in m2["arms"] for y in walk(arm["body"])) for x in walk(upd["body"]))
+        if hands_out and later_write:
+            r.undecided("%s selects the operand slots in its match and rewrites them afterwards: per-field rewriting was not analysed" % names[1])
+            for v in sorted(need):
+                okp = v in pred_set
+                r.ob(okp, {"variant": v, "in_predicate": okp})
+                if not okp:
+                    r.violate("%s | %s" % (pred["path"], v), F.loc(pred),
+                              "operator %s carries a %s index (%s) but %s does not accept it: it keeps its old index after re-indexing" % (v, kind, ",".join(need[v]), names[0]))
+            return r
     # key/target agreement: `match mapping.get(K) { Some(n) => *T = *n }` must look up the very field it rewrites
     n_pairs = 0
     # let-else form: `let Some(n) = mapping.get(K) else { panic }; *T = *n;`
